@@ -4,10 +4,13 @@ CONSTANTS
   SlowDelay = 80
   HangDelay = 700
   TimeoutRecoverable = TRUE
+  BackoffGrows = TRUE
   MaxLenWebhook = 4
   MaxLenPagerduty = 3
   Deadlines = {450, 1600, 2900}
   CancelDeadline = 2900
   Cancels = {130, 950}
+  LongDeadlines = {7000}
+  LongLen = 1
 INVARIANTS InvCanonical InvClauses InvClosed InvLogOnly InvBounded InvProgress
 CHECK_DEADLOCK FALSE
